@@ -432,10 +432,10 @@ def plan(tier, seed):
         t += [("e2e", dict(seed=seed, shard=s, histories=250)) for s in range(3)]
         t += [("long", dict(seed=seed, shard=s, n=(1 << 17) + 30000)) for s in range(2)]
     else:
-        t = [("histories", dict(seed=seed, shard=s, histories=400, n=800)) for s in range(10)]
+        t = [("histories", dict(seed=seed, shard=s, histories=3000, n=800)) for s in range(12)]
         t += [("histories", dict(seed=seed, shard=100 + s, histories=6, n=30000)) for s in range(2)]
-        t += [("e2e", dict(seed=seed, shard=s, histories=5000)) for s in range(4)]
-        t += [("long", dict(seed=seed, shard=s, n=(1 << 17) + 30000)) for s in range(2)] + [("long", dict(seed=seed, shard=2 + s, n=(1 << 20) + 200000)) for s in range(2)]
+        t += [("e2e", dict(seed=seed, shard=s, histories=20000)) for s in range(8)]
+        t += [("long", dict(seed=seed, shard=s, n=(1 << 17) + 30000)) for s in range(2)] + [("long", dict(seed=seed, shard=2 + s, n=(1 << 20) + 200000)) for s in range(2)] + [("long", dict(seed=seed, shard=4, n=(1 << 21) + 100000))]
     t += [("shipped", dict(shard=s, nshards=5)) for s in range(5)]
     return t
 
